@@ -227,8 +227,9 @@ class Layout:
     """Decides optional whitespace, line breaks inside parentheses, comments and blank
     lines.  Layout(None) is the canonical, minimal layout."""
 
-    def __init__(self, rng=None, noise=0.3, breaks=0.0, comments=0.0, tight=False, inner_p=None, pre_p=0.0):
+    def __init__(self, rng=None, noise=0.3, breaks=0.0, comments=0.0, tight=False, inner_p=None, pre_p=0.0, bare_p=0.0):
         self.rng, self.noise, self.breaks, self.comments, self.tight = rng, noise, breaks, comments, tight
+        self.bare_p = bare_p      # probability that the comparison after `if` is written without its (redundant) parentheses
         self.inner_p = noise if inner_p is None else inner_p
         self.pre_p = pre_p
         self.depth = 0
@@ -247,6 +248,16 @@ class Layout:
         if r < self.noise:
             return self.rng.choice([' ', '  ', '\t', ' \t'])
         return '' if self.tight else default
+
+    def kw(self, left, right):
+        """Separator between a keyword and its neighbour: Python needs none next to a bracket (`x if(c)else(y)`,
+        `(a)and(b)`, `not(x)`); `left`/`right` are the characters on either side (one of them the keyword's).  Braces, angle
+        brackets and backticks are term delimiters of the script language, not Python brackets: they keep their blank."""
+        if self.rng is None or not (left in tuple(')]') or right in tuple('(')):
+            return ' '
+        if self.rng.random() < (0.6 if self.tight else 0.15):
+            return ''
+        return ' '
 
     def inner(self):
         """Whitespace directly inside {..}, <..> and [..]."""
@@ -315,18 +326,28 @@ def render(node, mode, lay):
     if isinstance(node, IfExp):
         if mode == 'script':
             lay.depth += 1
-            s = f'({render(node.body, mode, lay)}{lay.brk() or " "}if {render(node.test, mode, lay)}{lay.brk() or " "}else {render(node.orelse, mode, lay)})'
+            body = render(node.body, mode, lay)
+            if isinstance(node.test, Cmp) and lay.rng is not None and lay.bare_p and lay.rng.random() < lay.bare_p:
+                test = f'{render(node.test.l, mode, lay)} {node.test.op} {render(node.test.r, mode, lay)}'
+            else:
+                test = render(node.test, mode, lay)
+            orelse = render(node.orelse, mode, lay)
+            s = f'({body}{lay.brk() or lay.kw(body[-1:], "i")}if{lay.kw("f", test[:1])}{test}{lay.brk() or lay.kw(test[-1:], "e")}else{lay.kw("e", orelse[:1])}{orelse})'
             lay.depth -= 1
             return s
         return f'({render(node.body, mode, lay)} if {render(node.test, mode, lay)} else {render(node.orelse, mode, lay)})'
     if isinstance(node, Bool):
         if mode == 'script':
             lay.depth += 1
-            s = f'({render(node.l, mode, lay)} {node.op}{lay.brk() or " "}{render(node.r, mode, lay)})'
+            l, r = render(node.l, mode, lay), render(node.r, mode, lay)
+            s = f'({l}{lay.kw(l[-1:], node.op[0])}{node.op}{lay.brk() or lay.kw(node.op[-1], r[:1])}{r})'
             lay.depth -= 1
             return s
         return f'({render(node.l, mode, lay)} {node.op} {render(node.r, mode, lay)})'
     if isinstance(node, Not):
+        if mode == 'script':
+            e = render(node.e, mode, lay)
+            return f'(not{lay.kw("t", e[:1])}{e})'
         return f'(not {render(node.e, mode, lay)})'
     if isinstance(node, Verb):
         if mode == 'script':
